@@ -39,3 +39,47 @@ func VerifCollectorRun(partCount, totalSize int, idx []int, data [][]byte) (errs
 	c.withBuffer(func(b []byte) error { buf = append([]byte{}, b...); return nil })
 	return errs, complete, buf
 }
+
+// VerifAsk is one in-flight ask taken apart into the steps that Swarm.Ask (create, await, remove) and
+// Swarm.handleAskReply (look up and remove, complete) perform on the asker, so that a harness can interleave the
+// two paths deterministically.
+type VerifAsk struct {
+	a      *asker
+	id     askID
+	ask    *ask
+	looked *ask
+}
+
+// VerifNewAsk registers an ask with the given response buffer, as Swarm.Ask does before it sends the request.
+func VerifNewAsk[A p2p.Addr, Pub any](s *Swarm[A, Pub], counter uint32, dst string, resp []byte) *VerifAsk {
+	id := askID{GroupID: GroupID{Counter: counter}, Addr: dst}
+	return &VerifAsk{a: s.asker, id: id, ask: s.asker.createAsk(id, resp)}
+}
+
+// AwaitExpired is Swarm.Ask waiting for the reply with a context that has just expired.
+func (v *VerifAsk) AwaitExpired() error {
+	ctx, cf := context.WithCancel(context.Background())
+	cf()
+	return v.ask.await(ctx)
+}
+
+// Remove is the deferred removeAsk of Swarm.Ask.
+func (v *VerifAsk) Remove() { v.a.removeAsk(v.id) }
+
+// Lookup is the first half of handleAskReply: the ask is looked up and taken out of the table.
+func (v *VerifAsk) Lookup() bool {
+	v.looked = v.a.getAndRemoveAsk(v.id)
+	return v.looked != nil
+}
+
+// Complete is the second half of handleAskReply, on the ask Lookup found (if any).
+func (v *VerifAsk) Complete(body []byte, errCode uint8) {
+	if v.looked != nil {
+		v.looked.complete(body, errCode)
+	}
+}
+
+// Result is what Swarm.Ask reads from the ask after a successful await.
+func (v *VerifAsk) Result() (n int, errCode uint8, short bool) {
+	return v.ask.n, v.ask.errCode, v.ask.short
+}
